@@ -87,7 +87,15 @@ class AsyncContext(object):
         if not is_asyncio_mode():
             self._active_task = enter_context(self)
 
-        self.resume()
+        try:
+            self.resume()
+        except BaseException:
+            # __exit__ is not called when __enter__ raises: the block is not entered, so the context must not stay
+            # registered with the task (it would be paused/resumed with the task for the rest of the task's life).
+            if not is_asyncio_mode():
+                leave_context(self, self._active_task)
+                del self._active_task
+            raise
         return self
 
     def __exit__(self, ty, value, tb):
